@@ -35,8 +35,22 @@ RULE = ("ident: (a) ALL histories of length <= 3 (thorough: <= 4) over a 10-lett
         "absent fields empty), with a second user on the same requester (quick 510, thorough 1836 after removing coinciding ones); "
         "(e) [round 2] seeded random histories (quick 100, thorough 600) in which NameID arguments also vary in representation, "
         "removals / manage requests are followed by a new request for the same triple in another spelling of its empty components "
-        "and a reverse lookup, and close() may re-open the same store with a new IdentDB object. codec: batches of "
-        "five-field identifiers over a near-collision alphabet + decode on malformed strings. eptid: ALL ordered pairs of "
+        "and a reverse lookup, and close() may re-open the same store with a new IdentDB object. "
+        "(f) [round 4] ALL life cycles of (d) with the NameID handed to each action BY IDENTITY -- the very object the first "
+        "request / the previous manage request answered, or the object a lookup made immediately before EACH action answered "
+        "(find_nameid, a repeated persistent_nameid, match_local_id, a name-id-mapping request) -- over action sequences that "
+        "bring an earlier storage key back (NewID+Terminate, NewID+NewID '', NewID+Terminate+NewID), followed by every kind of "
+        "lookup and a further NewID on what the provider answers now (quick 630); (g) [round 4] find_nameid over the SHAPE of "
+        "its filter: all filters of 0, 1, 2 fields (every ordered pair of distinct fields) over per field {value of each stored "
+        "identifier, None, a value nobody has}, three-field filters in every order of (qualifier, requester, format) and "
+        "(requester, format, SPProvidedID) (thorough: all three- and four-field filters), the {requester, format} filter of "
+        "Server.create_authn_response in both orders for every user incl. one without identifiers, with a NewID / Terminate / "
+        "removal in the middle (quick 7 histories of 55 steps); (h) [round 4] seeded random histories (quick 80, thorough 400) "
+        "as (e) with references by identity (and the caller changing a field of its object), more lookups and manage requests, "
+        "half of them next to a second IdentDB in the same process. For every ident history the harness also records whether "
+        "an answer was an object the caller already held or an object the caller holds changed under its hands (must be never). "
+        "codec: batches of five-field identifiers over a near-collision alphabet + decode on malformed strings; [round 4] every "
+        "text is decoded twice and the caller overwrites all fields of the first answer in between. eptid: ALL ordered pairs of "
         "calls over a 4x4 (requester, user) alphabet around the '__' separator, ALL ordered pairs over 7 ways of splitting "
         "'abc' over user id and extra arguments x 2 requesters, plus random histories with several "
         "providers. non-trivial = distinct sequence of (operation kind, outcome kind, number of changed dict entries) of a "
@@ -236,6 +250,10 @@ def gen_ident(rng, idx, thorough, reps=False):
     non-empty), 'unqual' (empty requester and qualifier allowed: class 3 reachable), 'multi' (several
     non-transient formats per requester: class 2 reachable), 'confused' (user names and identifier
     values overlap; raw stores of arbitrary identifiers).
+    reps == 2 (strengthening round 4): as reps, and a NameID reference may also be BY IDENTITY (rep "obj": the very
+    object the earlier step answered is handed back, possibly after the caller changed a field of it); lookups that answer
+    from the store and manage-name-id requests are more frequent; half of the histories run next to a second IdentDB in the
+    same process (case["twin"]).
     reps (strengthening round 2): the NameID handed to an operation also varies in its REPRESENTATION (as an earlier
     step returned it / as the store holds it: empty fields absent / absent fields empty), removals and
     manage-name-id requests are followed (half of the time) by a new request for the same (user, requester,
@@ -269,6 +287,8 @@ def gen_ident(rng, idx, thorough, reps=False):
     maxweights = [("persistent", 16), ("transient", 8), ("get", 6), ("construct", 8), ("find", 6), ("match", 4),
                   ("findlocal", 8), ("mapping", 6), ("manage", 14), ("remove", 6), ("removelocal", 2), ("store", 4),
                   ("close", 1)]
+    if reps == 2:
+        maxweights = [(a, {"find": 12, "match": 8, "mapping": 8, "manage": 20, "store": 2}.get(a, w)) for a, w in maxweights]
     names, weights = zip(*maxweights)
     triple = {}           # issuing step -> (user, requester, qualifier) it asked for (reps only)
     forced = []           # operations that must come next (reps only)
@@ -289,6 +309,8 @@ def gen_ident(rng, idx, thorough, reps=False):
                 spec["rep"] = "stored"
             elif z < 0.5:
                 spec["rep"] = "empty"
+            elif reps == 2 and z < 0.85 and "ref" in spec:
+                spec["rep"] = "obj"
         y = rng.random()
         if y < 0.08:
             spec["drop"] = [rng.choice([0, 1, 2, 3])]
@@ -322,6 +344,8 @@ def gen_ident(rng, idx, thorough, reps=False):
                 spec["rep"] = "stored"
             elif z < 0.55:
                 spec["rep"] = "empty"
+            elif reps == 2 and z < 0.9:
+                spec["rep"] = "obj"
             if o == "remove":
                 ops.append({"op": o, "n": spec})
             else:
@@ -395,6 +419,9 @@ def gen_ident(rng, idx, thorough, reps=False):
                                                          rng.choice([None, None] + SPID_POOL), txt]}})
         else:
             ops.append({"op": "close"})
+    if reps == 2:
+        return {"kind": "ident", "flavour": "objs-" + kind, "cfg": cfg, "users": users, "ops": ops, "idx": idx,
+                "reopen": rng.random() < 0.3, "twin": rng.random() < 0.5}
     if reps:
         return {"kind": "ident", "flavour": "reps-" + kind, "cfg": cfg, "users": users, "ops": ops, "idx": idx,
                 "reopen": rng.random() < 0.5}
@@ -544,6 +571,136 @@ def gen_ident_lifecycles(thorough):
     return out
 
 
+LC_OBJ_ACTS = ["remove", "newid", "terminate", "newid+terminate", "newid+newid0", "newid+terminate+newid", "enc"]
+LC_OBJ_REPS = ["obj-ret", "obj-find", "obj-ask", "obj-match", "obj-map"]
+
+
+def gen_ident_lifecycles_obj(thorough):
+    """(strengthening round 4) the life cycles of gen_ident_lifecycles with the NameID handed to each action BY IDENTITY:
+    the action receives the very object that (obj-ret) the first request / the previous manage request answered, or that
+    a lookup made immediately before EACH action answered -- (obj-find) find_nameid, (obj-ask) a repeated
+    persistent_nameid, (obj-match) match_local_id, (obj-map) a name-id-mapping request for the same format and requester.
+    Actions also come in sequences that bring an earlier storage key back (NewID then Terminate; NewID then NewID with an
+    empty id; NewID, Terminate, NewID).  Afterwards every kind of lookup is made again and the identifier is used once
+    more (a second NewID on what the provider answers now).  Over every spelling of requester and qualifier at the first
+    request (thorough: and the other spelling later) x entry point."""
+    import json
+
+    out, seen = [], set()
+    tags = ["v", "e", "n"]
+
+    def val(tag, v):
+        return v if tag == "v" else ("" if tag == "e" else None)
+
+    def other(tag):
+        return {"v": "v", "e": "n", "n": "e"}[tag]
+
+    def issue(op, u, s, q):
+        if op == "persistent":
+            return {"op": "persistent", "u": u, "s": s, "q": q}
+        return {"op": "construct", "u": u, "lp": P, "s": s, "pol": None, "q": q}
+
+    for st in tags:
+        for qt in tags:
+            cfg = {"domain": "example.org", "nq": ENUM_NQ if qt == "v" else ""}
+            s1, q1 = val(st, ENUM_SP2), val(qt, ENUM_NQ)
+            for swap in ((False, True) if thorough else (False,)):
+                s2, q2 = (val(other(st), ENUM_SP2), val(other(qt), ENUM_NQ)) if swap else (s1, q1)
+                for iop in ("persistent", "construct"):
+                    for act in LC_OBJ_ACTS:
+                        for rep in LC_OBJ_REPS:
+                            ops = [issue(iop, "alice", s1, q1), issue(iop, "bob smith", s1, q1)]
+                            ref = {"ref": 0, "rep": "obj"}
+                            for a in act.split("+"):
+                                if rep == "obj-find":
+                                    ops.append({"op": "find", "u": "alice", "flt": []})
+                                    ref = {"ref": len(ops) - 1, "i": 0, "rep": "obj"}
+                                elif rep == "obj-ask":
+                                    ops.append(issue("persistent", "alice", s2, q2))
+                                    ref = {"ref": len(ops) - 1, "rep": "obj"}
+                                elif rep == "obj-match":
+                                    ops.append({"op": "match", "u": "alice", "s": s2, "q": q2})
+                                    ref = {"ref": len(ops) - 1, "rep": "obj"}
+                                elif rep == "obj-map":
+                                    ops.append({"op": "mapping", "n": {"ref": 0}, "pol": [P, s1 or None, "false"]})
+                                    ref = {"ref": len(ops) - 1, "rep": "obj"}
+                                if a == "remove":
+                                    ops.append({"op": "remove", "n": ref})
+                                else:
+                                    new = {"newid": ["some", "new,id=1"], "newid0": ["some", ""]}.get(a)
+                                    ops.append({"op": "manage", "n": ref, "new": new, "enc": a == "enc", "term": a == "terminate"})
+                                    ref = {"ref": len(ops) - 1, "rep": "obj"}
+                            k = len(ops)
+                            ops += [issue("persistent", "alice", s2, q2), {"op": "findlocal", "n": {"ref": k}},
+                                    {"op": "find", "u": "alice", "flt": []},
+                                    {"op": "match", "u": "alice", "s": s1, "q": q1},
+                                    {"op": "mapping", "n": {"ref": k}, "pol": [P, s1 or None, "false"]},
+                                    {"op": "manage", "n": {"ref": k, "rep": "obj"}, "new": ["some", "ID-2"], "enc": False, "term": False},
+                                    {"op": "find", "u": "alice", "flt": [[3, "ID-2"]]},
+                                    issue(iop, "alice", s1, q1),
+                                    issue("persistent", "bob smith", s2, q2), {"op": "findlocal", "n": {"ref": 0}}]
+                            key = json.dumps([cfg, ops], sort_keys=True)
+                            if key in seen:
+                                continue
+                            seen.add(key)
+                            out.append({"kind": "ident", "flavour": "lifecycle-obj", "cfg": cfg, "users": list(ENUM_USERS),
+                                        "ops": ops, "idx": "%s%s%d-%s-%s-%s" % (st, qt, swap, iop[0], act, rep)})
+    return out
+
+
+def gen_ident_filters(thorough):
+    """(strengthening round 4) find_nameid over the SHAPE of its filter.  alice holds a persistent identifier for
+    requester 1 that carries an SPProvidedID, a transient and a persistent one for requester 2 and a persistent one
+    without requester; bob holds one for requester 1; carol holds nothing.  ALL filters of 0, 1 and 2 fields (every
+    ordered pair of distinct fields: keyword order is iteration order) over, per field, the value of each stored
+    identifier, absent (None) and a value nobody has -- so that every combination "an earlier field does not match, a
+    later one does" and vice versa occurs --, the three-field filters over the values of the stored identifiers in every
+    order of (qualifier, requester, format) and (requester, format, SPProvidedID) (thorough: all three- and four-field
+    filters), for alice; the two-field filters {requester, format} that Server.create_authn_response uses, in both
+    orders, for every user.  Split into histories of at most 48 lookups; a NewID / Terminate / removal in the middle
+    of each history changes what is stored."""
+    import itertools
+
+    nq2 = "nq 2"
+    cand = {0: [ENUM_NQ, None, nq2], 1: [ENUM_SP1, ENUM_SP2, None, "sp5"], 2: [P, T, None, E], 3: ["x y", None, "0"]}
+    stored = {0: [ENUM_NQ], 1: [ENUM_SP1, ENUM_SP2, None], 2: [P, T], 3: ["x y", None]}
+    setup = [{"op": "persistent", "u": "alice", "s": ENUM_SP1, "q": ENUM_NQ},
+             {"op": "transient", "u": "alice", "s": ENUM_SP2, "q": ENUM_NQ},
+             {"op": "persistent", "u": "alice", "s": ENUM_SP2, "q": ENUM_NQ},
+             {"op": "persistent", "u": "bob smith", "s": ENUM_SP1, "q": ENUM_NQ},
+             {"op": "manage", "n": {"ref": 0}, "new": ["some", "x y"], "enc": False, "term": False},
+             {"op": "persistent", "u": "alice", "s": None, "q": ENUM_NQ}]
+    flts = [[]]
+    for i in range(4):
+        flts += [[[i, v]] for v in cand[i]]
+    for i, j in itertools.permutations(range(4), 2):
+        flts += [[[i, v], [j, w]] for v in cand[i] for w in cand[j]]
+    triples = itertools.permutations(range(4), 3) if thorough else \
+        list(itertools.permutations((0, 1, 2))) + list(itertools.permutations((1, 2, 3)))
+    for t in triples:
+        pools = [cand[i] if thorough else stored[i] for i in t]
+        flts += [[[i, v] for i, v in zip(t, vs)] for vs in itertools.product(*pools)]
+    if thorough:
+        for t in itertools.permutations(range(4), 4):
+            flts += [[[i, v] for i, v in zip(t, vs)] for vs in itertools.product(*[stored[i] for i in t])]
+    finds = [{"op": "find", "u": "alice", "flt": f} for f in flts]
+    for u in ("alice", "bob smith", "carol"):
+        for sp in (ENUM_SP1, ENUM_SP2):
+            for f in (P, T):
+                finds.append({"op": "find", "u": u, "flt": [[1, sp], [2, f]]})
+                finds.append({"op": "find", "u": u, "flt": [[2, f], [1, sp]]})
+    mids = [{"op": "manage", "n": {"ref": 4}, "new": None, "enc": False, "term": True},
+            {"op": "remove", "n": {"ref": 1}},
+            {"op": "manage", "n": {"ref": 2}, "new": ["some", "x y"], "enc": False, "term": False}]
+    out = []
+    for k in range(0, len(finds), 48):
+        chunk = finds[k:k + 48]
+        ops = setup + chunk[:24] + [mids[len(out) % 3]] + chunk[24:]
+        out.append({"kind": "ident", "flavour": "filters", "cfg": {"domain": "example.org", "nq": ENUM_NQ},
+                    "users": ["alice", "bob smith", "carol"], "ops": ops, "idx": len(out)})
+    return out
+
+
 CODEC_VALUES = [None, "", "a", "a,1=b", "0=a", "a=b", "a b", "%", "%2C", "a%20b", "/", "a/b", "é", "€,", "1", "4=",
                 ",", "=", " ", "a,b", "a\tb", "~._-", "A+B", "x" * 40, "é=é", "%zz", "a%"]
 
@@ -627,7 +784,11 @@ def generate(ctx):
               [gen_eptid_random(rng, i) for i in range(600 if ctx.thorough else 100)],
               # strengthening round 2 (appended: the seeded random stream of the groups above is unchanged)
               gen_ident_lifecycles(ctx.thorough),
-              [gen_ident(rng, "r%d" % i, ctx.thorough, reps=True) for i in range(600 if ctx.thorough else 100)]]
+              [gen_ident(rng, "r%d" % i, ctx.thorough, reps=True) for i in range(600 if ctx.thorough else 100)],
+              # strengthening round 4 (appended likewise)
+              gen_ident_lifecycles_obj(ctx.thorough),
+              gen_ident_filters(ctx.thorough),
+              [gen_ident(rng, "o%d" % i, ctx.thorough, reps=2) for i in range(400 if ctx.thorough else 80)]]
     # interleave the kinds so that the expensive histories are spread evenly over the coqc shards
     keyed = []
     for g in groups:
@@ -725,23 +886,71 @@ def observe_ident(case):
     from saml2.ident import IdentDB
     from saml2.saml import NameID
 
+    if case.get("twin"):
+        # (round 4) a second identity provider lives in the same process: the same abstract history is run on an
+        # independent IdentDB (its own store), interleaved step by step.  Only the first instance is observed; state
+        # that lives on the class / the module instead of in the store shows up as interference.
+        twin = dict(case)
+        twin.pop("twin")
+        gen = _run_ident(twin, IdentDB, NameID, samlp)
+        main = _run_ident(twin, IdentDB, NameID, samlp)
+        res = None
+        while True:
+            try:
+                next(main)
+            except StopIteration as stop:
+                res = stop.value
+                break
+            try:
+                next(gen)
+            except StopIteration:
+                pass
+        return res
+    run = _run_ident(case, IdentDB, NameID, samlp)
+    while True:
+        try:
+            next(run)
+        except StopIteration as stop:
+            return stop.value
+
+
+def _run_ident(case, IdentDB, NameID, samlp):
+    """generator: yields after every step, returns the observation"""
     idb = IdentDB({}, domain=case["cfg"]["domain"], name_qualifier=case["cfg"]["nq"])
     outs = []          # abstract outputs so far (for refs)
+    objs = []          # the objects the real code answered (for refs by identity, rep "obj")
+    owned = {}         # id(object) -> [object, fields the caller last saw]: every NameID the caller holds
+    aliased = []
     steps = []
 
     def mk(f):
         return NameID(name_qualifier=f[0], sp_name_qualifier=f[1], format=f[2], sp_provided_id=f[3], text=f[4])
 
     def resolve_nid(spec, k, store=False):
+        """-> (fields, object or None).  rep "obj" (round 4): the very object an earlier step answered is handed
+        back (the caller keeps what it was given; 'set' / 'drop' then are the caller scribbling on its own object)"""
         f = None
+        obj = None
         if "lit" in spec:
             f = list(spec["lit"])
         else:
             o = outs[spec["ref"]] if spec["ref"] < len(outs) else ["none"]
             if o[0] == "nid" and "i" not in spec:
                 f = list(o[1])
+                obj = objs[spec["ref"]]
             elif o[0] == "nids" and o[1]:
                 f = list(o[1][spec.get("i", 0) % len(o[1])])
+                obj = objs[spec["ref"]][spec.get("i", 0) % len(o[1])]
+        if spec.get("rep") == "obj" and obj is not None:
+            for i in spec.get("drop", []):
+                setattr(obj, ATTR[i], None)
+            for i, v in spec.get("set", {}).items():
+                setattr(obj, ATTR[int(i)], v)
+            f = fields(obj)
+            if f[4] is None and store:
+                obj.text = f[4] = "notext-%d" % k
+            owned[id(obj)] = [obj, list(f)]
+            return f, obj
         if f is None:
             f = [None, None, None, None, "nope-%d" % k]
         if spec.get("rep") == "stored":         # as decode() reads it from the store: empty fields are absent
@@ -754,7 +963,7 @@ def observe_ident(case):
             f[int(i)] = v
         if f[4] is None and store:
             f[4] = "notext-%d" % k      # a None dict key is outside the model
-        return f
+        return f, None
 
     def resolve_user(u):
         if isinstance(u, dict):
@@ -767,10 +976,14 @@ def observe_ident(case):
     for k, o in enumerate(case["ops"]):
         before = _snapshot(idb.db)
         conc = dict(o)
+        arg = None
         if "u" in o:
             conc["u"] = resolve_user(o["u"])
         if "n" in o:
-            conc["n"] = resolve_nid(o["n"], k, store=(o["op"] == "store"))
+            conc["n"], arg = resolve_nid(o["n"], k, store=(o["op"] == "store"))
+            if arg is None:
+                arg = mk(conc["n"])
+        r = None
         try:
             kind = o["op"]
             if kind == "persistent":
@@ -789,21 +1002,21 @@ def observe_ident(case):
             elif kind == "match":
                 r = idb.match_local_id(conc["u"], conc["s"], conc["q"])
             elif kind == "findlocal":
-                r = idb.find_local_id(mk(conc["n"]))
+                r = idb.find_local_id(arg)
             elif kind == "mapping":
                 pol = samlp.NameIDPolicy(format=o["pol"][0], sp_name_qualifier=o["pol"][1], allow_create=o["pol"][2])
-                r = idb.handle_name_id_mapping_request(mk(conc["n"]), pol)
+                r = idb.handle_name_id_mapping_request(arg, pol)
             elif kind == "manage":
                 new = None if o["new"] is None else samlp.NewID(text=o["new"][1])
-                r = idb.handle_manage_name_id_request(mk(conc["n"]), new_id=new,
+                r = idb.handle_manage_name_id_request(arg, new_id=new,
                                                       new_encrypted_id=samlp.NewEncryptedID() if o["enc"] else "",
                                                       terminate=samlp.Terminate() if o["term"] else "")
             elif kind == "remove":
-                r = idb.remove_remote(mk(conc["n"]))
+                r = idb.remove_remote(arg)
             elif kind == "removelocal":
                 r = idb.remove_local(conc["u"])
             elif kind == "store":
-                r = idb.store(conc["u"], mk(conc["n"]))
+                r = idb.store(conc["u"], arg)
             elif kind == "close":
                 r = idb.close()
                 if case.get("reopen"):          # the provider is restarted on the same store: a new IdentDB object
@@ -813,6 +1026,7 @@ def observe_ident(case):
             out = _abs_out(r)
         except Exception as ex:  # the exception class is part of the observation
             out = ["exc", _exc_name(ex)]
+            r = None
         try:
             after = _snapshot(idb.db)
         except TypeError:
@@ -820,7 +1034,29 @@ def observe_ident(case):
             # state space.  The step is recorded as an unmodelled outcome (the model disagrees) and the history ends.
             conc["fresh"] = ""
             steps.append({"op": conc, "out": ["other", "non-str db entry"], "diff": []})
-            return {"steps": steps, "final": sorted(before.items())}
+            return {"steps": steps, "final": sorted(before.items()), "aliased": aliased}
+        # (round 4) the answer is the caller's own: no NameID of it is an object the caller already holds (an earlier
+        # answer, or an argument it built) -- except that a manage-name-id request answers its argument --, and no
+        # object the caller holds has changed under its hands -- except the argument of a manage-name-id request
+        bad = False
+        answered = [r] if isinstance(r, NameID) else ([x for x in r if isinstance(x, NameID)] if isinstance(r, list) else [])
+        for x in answered:
+            if id(x) in owned and not (kind == "manage" and x is arg):
+                bad = True
+        if len({id(x) for x in answered}) != len(answered):
+            bad = True
+        if arg is not None and kind == "manage":
+            owned[id(arg)] = [arg, fields(arg)]
+        elif arg is not None and id(arg) not in owned:
+            owned[id(arg)] = [arg, fields(arg)]
+        for ob, seen_f in owned.values():
+            if fields(ob) != seen_f:
+                bad = True
+                seen_f[:] = fields(ob)
+        for x in answered:
+            owned[id(x)] = [x, fields(x)]
+        if bad:
+            aliased.append(k)
         # oracle value: the identifier the real code generated = text of the returned NameID
         # (minus the "@domain" the e-mail format appends); unused by the model when nothing is issued
         fresh = ""
@@ -831,8 +1067,36 @@ def observe_ident(case):
                 fresh = fresh[: -len(dom)]
         conc["fresh"] = fresh
         outs.append(out)
+        objs.append(r)
         steps.append({"op": conc, "out": out, "diff": _diff(before, after)})
-    return {"steps": steps, "final": sorted(idb.db.items())}
+        yield k
+    return {"steps": steps, "final": sorted(idb.db.items()), "aliased": aliased}
+
+
+def _scribble(n):
+    """the caller changes the NameID it was given (its own object)"""
+    for a in ATTR:
+        setattr(n, a, "scribbled by the caller")
+
+
+def _decode_twice(decode, c):
+    """(round 4) decode is asked twice for the same text; the caller overwrites every field of the first answer in
+    between (it owns it).  Lossless means the second answer is still the identifier: the answer recorded is the second
+    one, or, when the two calls differ in kind, "differs"."""
+    try:
+        first = decode(c)
+        d1 = fields(first)
+        _scribble(first)
+    except ValueError:
+        first, d1 = None, None
+    try:
+        second = decode(c)
+        d2 = fields(second)
+    except ValueError:
+        d2 = None
+    if (d1 is None) != (d2 is None):
+        return ["decode differs between two calls"] * 5
+    return d2
 
 
 def observe_codec(case):
@@ -843,11 +1107,9 @@ def observe_codec(case):
     for f in case["items"]:
         n = NameID(name_qualifier=f[0], sp_name_qualifier=f[1], format=f[2], sp_provided_id=f[3], text=f[4])
         c = code(n)
-        try:
-            d = fields(decode(c))
-        except ValueError:
-            d = None
-        res.append([c, d])
+        if fields(n) != list(f):        # code() must not change the caller's object
+            c = "code() changed its argument"
+        res.append([c, _decode_twice(decode, c)])
     return {"items": res}
 
 
@@ -855,7 +1117,8 @@ def observe_decode(case):
     from saml2.ident import decode
 
     try:
-        return {"r": fields(decode(case["s"])), "exc": None}
+        r = _decode_twice(decode, case["s"])
+        return {"r": r, "exc": None if r is not None else "ValueError"}
     except Exception as ex:
         return {"r": None, "exc": type(ex).__name__}
 
@@ -1031,8 +1294,9 @@ def coq_case(case, obs):
             df = "; ".join("(%s, %s)" % (P_.s(a), cq_dval(P_, b)) for a, b in st["diff"])
             steps.append("S_ (%s) %s [%s]" % (cq_op(P_, st["op"]), cq_out(P_, st["out"]), df))
         final = "; ".join("(%s, %s)" % (P_.s(a), P_.s(b)) for a, b in obs["final"])
-        return P_.finish("CIdent (Cf %s %s) %s [%s] [%s]" % (P_.s(case["cfg"]["domain"]), P_.s(case["cfg"]["nq"]),
-                                                             P_.lst(case["users"]), ";\n  ".join(steps), final))
+        return P_.finish("CIdent (Cf %s %s) %s [%s] [%s] [%s]" % (P_.s(case["cfg"]["domain"]), P_.s(case["cfg"]["nq"]),
+                                                                  P_.lst(case["users"]), ";\n  ".join(steps), final,
+                                                                  "; ".join("%d%%nat" % k for k in obs.get("aliased", []))))
     if k == "codec":
         its = []
         for f, (c, d) in zip(case["items"], obs["items"]):
@@ -1064,6 +1328,7 @@ def nontrivial(case, obs):
 
 def histogram(cases, observed):
     h = {"kinds": {}, "ident_flavours": {}, "ident_ops": {}, "ident_outcomes": {}, "ident_lengths": {"<=10": 0, "11-30": 0, "31-60": 0},
+         "ident_args_by_identity": 0, "ident_twin_histories": 0, "ident_find_filter_sizes": {}, "ident_aliased_steps": 0,
          "ident_max_db": 0, "decode_exceptions": 0, "eptid_colliding_histories": 0, "codec_items": 0}
     for c, o in zip(cases, observed):
         h["kinds"][c["kind"]] = h["kinds"].get(c["kind"], 0) + 1
@@ -1072,6 +1337,14 @@ def histogram(cases, observed):
             n = len(c["ops"])
             h["ident_lengths"]["<=10" if n <= 10 else ("11-30" if n <= 30 else "31-60")] += 1
             h["ident_max_db"] = max(h["ident_max_db"], len(o["final"]))
+            h["ident_twin_histories"] += 1 if c.get("twin") else 0
+            h["ident_aliased_steps"] += len(o.get("aliased", []))
+            for op in c["ops"]:
+                if isinstance(op.get("n"), dict) and op["n"].get("rep") == "obj":
+                    h["ident_args_by_identity"] += 1
+                if op["op"] == "find":
+                    k = str(len(op["flt"]))
+                    h["ident_find_filter_sizes"][k] = h["ident_find_filter_sizes"].get(k, 0) + 1
             for s in o["steps"]:
                 k = s["op"]["op"]
                 h["ident_ops"][k] = h["ident_ops"].get(k, 0) + 1
@@ -1095,10 +1368,79 @@ def explain_term(coq_case_term):
     return "C18.Corr.explain (%s)" % coq_case_term
 
 
+def _failing(cands):
+    """indexes of the candidate cases whose OBSERVED behaviour fails the spec (evaluated by Coq in one batch)"""
+    if not cands:
+        return set()
+    obs = [observe(c) for c in cands]
+    terms = [coq_case(c, o) for c, o in zip(cands, obs)]
+    res, errors = common.eval_cases(PID, IMPORTS, CASE_TYPE, RUNNER, terms, shard=40, tag="shrink")
+    return {i for i, c in res if c == 2 or c in (11, 12, 13)}
+
+
+def _refs(o):
+    out = []
+    if isinstance(o.get("n"), dict) and "ref" in o["n"]:
+        out.append(o["n"]["ref"])
+    if isinstance(o.get("u"), dict):
+        out.append(o["u"]["ref_text"])
+    return out
+
+
+def _without(ops, drop):
+    """the history without the steps in drop (none of them referenced by a kept step); references renumbered"""
+    new_index, kept = {}, []
+    for k, o in enumerate(ops):
+        if k not in drop:
+            new_index[k] = len(kept)
+            kept.append(o)
+    out = []
+    for o in kept:
+        o = dict(o)
+        if isinstance(o.get("n"), dict) and "ref" in o["n"]:
+            o["n"] = dict(o["n"], ref=new_index[o["n"]["ref"]])
+        if isinstance(o.get("u"), dict):
+            o["u"] = {"ref_text": new_index[o["u"]["ref_text"]]}
+        out.append(o)
+    return out
+
+
 def shrink(case, ctx):
-    """Shorten a failing ident history from the end while it still contains the failing behaviour is
-    not decidable here without Coq; keep the case (histories are short)."""
-    return case
+    """(round 4) Make a failing case small before it is written as the replay input; every candidate is run against
+    the real code and judged by Coq (one coqc call per round), so the result still fails.
+    ident: the shortest failing prefix (every part of the spec is a statement about events / ordered pairs of events
+    of a wf history, so failing is monotone in the prefix), then steps that no later step refers to are removed
+    while the history still fails.  codec: one item, else two items."""
+    try:
+        if case["kind"] == "codec":
+            items = case["items"]
+            singles = [dict(case, items=[it]) for it in items]
+            bad = _failing(singles)
+            if bad:
+                return singles[min(bad)]
+            pairs = [dict(case, items=[a, b]) for i, a in enumerate(items) for b in items[i + 1:]]
+            bad = _failing(pairs)
+            return pairs[min(bad)] if bad else case
+        if case["kind"] != "ident":
+            return case
+        ops = case["ops"]
+        prefixes = [dict(case, ops=ops[:n]) for n in range(1, len(ops))]
+        bad = _failing(prefixes)
+        if bad:
+            case = prefixes[min(bad)]
+        for _ in range(8):
+            ops = case["ops"]
+            used = {r for o in ops for r in _refs(o)}
+            free = [k for k in range(len(ops) - 1) if k not in used]
+            singles = [dict(case, ops=_without(ops, {k})) for k in free]
+            bad = _failing(singles)
+            if not bad:
+                break
+            both = dict(case, ops=_without(ops, {free[i] for i in bad}))
+            case = both if len(bad) > 1 and _failing([both]) else singles[min(bad)]
+        return case
+    except Exception:       # shrinking is a convenience: never lose the failing case over it
+        return case
 
 
 IMPORTS += "\nImport ListNotations.\n" + "\n".join("Definition %s := %s." % (name, Pool.pack(v.encode("utf-8")))
